@@ -89,6 +89,14 @@ def run(repo, rep, tier):
     _keyed(repo, rep, func)
     _skeletons(repo, rep)
     _nesting(repo, rep)
+    # the statements' save/restore brackets and the scoping of names bound
+    # inside expressions are what 'arbitrarily nested elements' and 'every
+    # binding of its variables' rest on (C05 / C04 own these rules)
+    from . import c05, c04
+    L.borrow(repo, rep, "R01.9", "C05", c05.brackets,
+             ("bracket-present", "restore-condition", "marker"))
+    L.borrow(repo, rep, "R01.9", "C04", lambda r, p: c04._binders(
+        r, p, handlers=False), ("shared-scope", "scope-leak", "empty-scope"))
     _sinks(repo, rep)
     _cache_scope(repo, rep, func, res, steps)
     _tables(repo, rep, func)
@@ -138,6 +146,14 @@ PINNED = [
     ("context", "<inner>", "translation settings apply to the content"),
     ("target", "<inner>", "translation settings apply to the content"),
 ]
+
+
+def order(repo, rep):
+    """wrapper nesting (R01.1), callable by neighbours"""
+    func = repo.func(VE)
+    res = L.emission(repo, VE)
+    steps, rest = L.wrapper_chain(res.value)
+    _order(rep, func, steps, rest)
 
 
 def _order(rep, func, steps, rest):
